@@ -209,3 +209,153 @@ Theorem C19_oneshot_not_preserved_by_import :
      = [((78, 0), 2, 20, 0)].
 Proof. exact GapC19b.C19_oneshot_not_preserved_by_import. Qed.
 Print Assumptions C19_oneshot_not_preserved_by_import.
+
+(* ------------------------------------------------------------------ *)
+(* C19, "state survives": the new chain (Proofs/Restart.v, Proofs/RestartEx.v).
+
+   restart cfg s' h t  is the state a new chain starts in: the service store is
+   import_genesis h t (export_genesis cfg s'), s' the prepared state of the old
+   chain; the bank (balances, supply) is carried over by the bank module's own
+   genesis (MODELLED, not proved); the ghost log restarts with one EvCtxCreated per
+   imported context. *)
+From SVC Require Import Model.EndBlock Model.Step Proofs.Inv Proofs.Restart Proofs.RestartEx.
+
+
+
+(* what the new chain starts with *)
+Theorem C19_restart_state : forall cfg s s' h t,
+  wf_cfg cfg -> Reach cfg s -> prep_zero_height s = Some s' ->
+  let R := restart cfg s' h t in
+  height R = h /\ time R = t
+  /\ defs R = defs s /\ binds R = binds s /\ wdaddr R = wdaddr s
+  /\ ctxs R = map (fun kv => (fst kv, reset_ctx (snd kv))) (ctxs s)
+  /\ (forall k, get k (pricing R) = get k (pricing s))
+  /\ (forall e, In e (own_bind R) <-> In e (own_bind s))
+  /\ (forall o p, In (o, p) (own_prov R) <-> get p (owner_of R) = Some o)
+  /\ (forall p o, get p (owner_of R) = Some o
+        <-> exists svc b, get (svc, p) (binds s) = Some b /\ b_owner b = o)
+  /\ expq R = [] /\ newq R = [] /\ expq_h R = [] /\ newq_h R = []
+  /\ reqs R = [] /\ resps R = [] /\ vols R = [] /\ earned R = [] /\ own_earned R = []
+  /\ bal R Escrow = 0 /\ bal R Deposit = bal s Deposit /\ bal R FeeColl = bal s FeeColl
+  /\ (forall a, bal R (User a) = bal s (User a) + pending_of s a + earned_of s a)
+  /\ supply R = supply s
+  /\ (forall c, In (EvCtxCreated c) (log R) <-> has c (ctxs s) = true).
+Proof. exact Restart.restart_state. Qed.
+Print Assumptions C19_restart_state.
+
+(* the id of an imported context is refused on the new chain (H-txid), no other is *)
+Theorem C19_restart_ctx_fresh : forall cfg s s' h t,
+  state_wf_exported s -> prep_zero_height s = Some s' ->
+  forall c, ctx_fresh (restart cfg s' h t) c <-> get c (ctxs s) = None.
+Proof. exact Restart.restart_ctx_fresh. Qed.
+Print Assumptions C19_restart_ctx_fresh.
+
+(* every conjunct of the global invariant except the one-shot clause of I_ctx
+   holds of the restarted state, whatever the export point *)
+Theorem C19_restart_Inv_partial : forall cfg s s' h t,
+  wf_cfg cfg -> Reach cfg s -> prep_zero_height s = Some s' -> 1 <= h -> 0 <= t ->
+  Inv_partial cfg (restart cfg s' h t).
+Proof. exact Restart.restart_Inv_partial. Qed.
+Print Assumptions C19_restart_Inv_partial.
+
+Theorem C19_Inv_split : forall cfg s, Inv cfg s <-> Inv_partial cfg s /\ I_ctx_oneshot s.
+Proof. exact Restart.Inv_split. Qed.
+Print Assumptions C19_Inv_split.
+
+(* the full invariant holds exactly when no one-shot context had its batch in flight *)
+Theorem C19_restart_Inv_iff : forall cfg s s' h t,
+  wf_cfg cfg -> Reach cfg s -> prep_zero_height s = Some s' -> 1 <= h -> 0 <= t ->
+  (Inv cfg (restart cfg s' h t) <-> no_oneshot_inflight s).
+Proof. exact Restart.restart_Inv_iff_reach. Qed.
+Print Assumptions C19_restart_Inv_iff.
+
+Theorem C19_restart_Inv : forall cfg s s' h t,
+  wf_cfg cfg -> Reach cfg s -> prep_zero_height s = Some s' -> no_oneshot_inflight s ->
+  1 <= h -> 0 <= t -> Inv cfg (restart cfg s' h t).
+Proof. exact Restart.restart_Inv. Qed.
+Print Assumptions C19_restart_Inv.
+
+(* the invariant is kept from any start state that has it *)
+Theorem C19_ReachFrom_Inv : forall cfg s0 s,
+  wf_cfg cfg -> Inv cfg s0 -> ReachFrom cfg s0 s -> Inv cfg s.
+Proof. exact Restart.ReachFrom_Inv. Qed.
+Print Assumptions C19_ReachFrom_Inv.
+
+Theorem C19_Reach_ReachFrom : forall cfg s, Reach cfg s ->
+  exists h0 t0 f, 1 <= h0 /\ 0 <= t0 /\ wf_funding f /\ ReachFrom cfg (init h0 t0 f) s.
+Proof. exact Restart.Reach_ReachFrom. Qed.
+Print Assumptions C19_Reach_ReachFrom.
+
+(* every state of the new chain satisfies the global invariant *)
+Theorem C19_restart_reach_Inv : forall cfg s s' h t s2,
+  wf_cfg cfg -> Reach cfg s -> prep_zero_height s = Some s' -> no_oneshot_inflight s ->
+  1 <= h -> 0 <= t -> ReachFrom cfg (restart cfg s' h t) s2 -> Inv cfg s2.
+Proof. exact Restart.restart_reach_Inv. Qed.
+Print Assumptions C19_restart_reach_Inv.
+
+Theorem C19_restart_reach_props : forall cfg s s' h t s2,
+  wf_cfg cfg -> Reach cfg s -> prep_zero_height s = Some s' -> no_oneshot_inflight s ->
+  1 <= h -> 0 <= t -> ReachFrom cfg (restart cfg s' h t) s2 ->
+  (* C01 *) bal s2 Escrow = msum fee_active (reqs s2) + msum vid (earned s2)
+  (* C03 *) /\ bal s2 Deposit = msum dep_of (binds s2)
+  (* C11 *) /\ (forall c rc, get c (ctxs s2) = Some rc -> c_state rc = Running ->
+                 has c (expq_h s2) = true \/ has c (newq_h s2) = true)
+  (* C13 *) /\ (forall o, get0 o (own_earned s2) = msum (owned_by s2 o) (earned s2))
+  (* C14 *) /\ (forall k b, In (k, b) (binds s2) -> b_avail b = true ->
+                 min_dep_val cfg (pricing_of s2 k) <= b_deposit b)
+  (* C15 *) /\ I_index cfg s2
+  (* C16 *) /\ I_req s2.
+Proof. exact Restart.restart_reach_props. Qed.
+Print Assumptions C19_restart_reach_props.
+
+(* ... and so does every state of a chain restarted any number of times *)
+Theorem C19_restarts_Inv : forall cfg s, wf_cfg cfg -> ReachR cfg s -> Inv cfg s.
+Proof. exact Restart.ReachR_Inv. Qed.
+Print Assumptions C19_restarts_Inv.
+
+(* the side condition cannot be dropped: a reachable export point for which the
+   restarted state violates I_ctx ... *)
+Theorem C19_restart_Inv_refuted :
+  exists cfg s s' h t, wf_cfg cfg /\ Reach cfg s /\ prep_zero_height s = Some s' /\ 1 <= h /\ 0 <= t
+    /\ ~ I_ctx cfg (restart cfg s' h t) /\ ~ Inv cfg (restart cfg s' h t).
+Proof. exact RestartEx.restart_Inv_refuted. Qed.
+Print Assumptions C19_restart_Inv_refuted.
+
+(* ... and on that new chain the one-shot context is started again and issues a
+   second batch (C10 "a one-shot context never gets more than one batch" does not
+   survive the restart) *)
+Theorem C19_restart_oneshot_second_batch :
+  exists cfg s s' h t s2, wf_cfg cfg /\ Reach cfg s /\ prep_zero_height s = Some s' /\ 1 <= h /\ 0 <= t
+    /\ ReachFrom cfg (restart cfg s' h t) s2
+    /\ exists c rc0 rc r q, get c (ctxs s) = Some rc0 /\ c_rep rc0 = false /\ c_counter rc0 = 1
+         /\ get c (ctxs s2) = Some rc /\ c_rep rc = false /\ c_counter rc = 2
+         /\ get r (reqs s2) = Some q /\ rid_ctx r = c /\ rid_batch r = 2 /\ r_active q = true.
+Proof. exact RestartEx.restart_oneshot_second_batch. Qed.
+Print Assumptions C19_restart_oneshot_second_batch.
+
+(* a context killed with its batch in flight is a paused context of the new chain
+   and runs again (C09 "completed is final" does not survive the restart) *)
+Theorem C19_restart_killed_resurrected :
+  exists cfg s s' h t s2 c rc0 rc,
+    wf_cfg cfg /\ Reach cfg s /\ prep_zero_height s = Some s' /\ no_oneshot_inflight s
+    /\ 1 <= h /\ 0 <= t /\ Inv cfg (restart cfg s' h t)
+    /\ get c (ctxs s) = Some rc0 /\ c_state rc0 = Completed
+    /\ ReachFrom cfg (restart cfg s' h t) s2
+    /\ get c (ctxs s2) = Some rc /\ c_state rc = Running /\ c_counter rc = c_counter rc0 + 1
+    /\ has c (expq_h s2) = true.
+Proof. exact RestartEx.restart_killed_resurrected. Qed.
+Print Assumptions C19_restart_killed_resurrected.
+
+(* the hypotheses of C19_restart_reach_Inv are satisfiable: a concrete reachable
+   state with bindings, a context in its second batch, two pending requests and an
+   earning; the restarted state has the invariant and six further operations run *)
+Theorem C19_restart_instance :
+  Reach ex_cfg rx_state /\ prep_zero_height rx_state = Some rx_prep /\ no_oneshot_inflight rx_state
+  /\ Inv ex_cfg (restart ex_cfg rx_prep 1 0)
+  /\ ReachFrom ex_cfg (restart ex_cfg rx_prep 1 0) rx_end /\ Inv ex_cfg rx_end.
+Proof.
+  exact (conj RestartEx.rx_reach (conj RestartEx.rx_prep_eq (conj RestartEx.rx_no_oneshot
+    (conj RestartEx.rx_new_Inv (conj (Restart.ReachFrom_run _ _ _ RestartEx.rx_more_wf) RestartEx.rx_end_Inv))))).
+Qed.
+Print Assumptions C19_restart_instance.
+
